@@ -45,7 +45,7 @@ HeaderVars == {[h |-> "Range", v |-> x] : x \in {"bytes=0-1", "bytes=5-922337203
                [h |-> "X-Minio-Force-Delete", v |-> "true"], [h |-> "X-Amz-Meta-Big", v |-> "BIG"],
                [h |-> "Origin", v |-> "http://example.org"]}
 
-BodyClasses == {"empty", "delete-xml", "complete-xml", "versioning-xml", "truncated-xml", "wrong-root", "huge-numbers",
+BodyClasses == {"empty", "delete-xml", "complete-xml", "complete-odd-etags", "complete-quotes-only", "complete-lone-quote", "versioning-xml", "truncated-xml", "wrong-root", "huge-numbers",
                 "negative-part", "zero-part", "binary", "deep-xml", "versioning-bad-status", "chunked-garbage", "form"}
 
 \* the default of every dimension
